@@ -678,6 +678,7 @@ class Shape:
         r.sorted = keep_sorted and len(out) == 1
         if keep_roles:
             r.roles, r.role_name = keep_roles, getattr(base, 'role_name', 'matrix')
+            r.subblock = True           # m[np.ix_(rows, cols)] of a role matrix
         return r
 
     def check_ix(self, node, axis, ix, inode):
@@ -1021,6 +1022,9 @@ class Shape:
                 if a.axes[-1] is not bc and not is_unk(a.axes[-1]) and not is_unk(bc):
                     self.report('space', e, 'matrix product contracts an axis of space %s with an axis of space %s' % (a.axes[-1], bc))
                 el = qmul(a.elem, b.elem) if isinstance(a.elem, Q) and isinstance(b.elem, Q) else UNK
+                # a product with a SUB-BLOCK of a role matrix (m[np.ix_(c, c)]): the cross terms with the channels left out are dropped
+                if isinstance(el, Q) and any(getattr(m_, 'roles', None) and getattr(m_, 'subblock', False) for m_ in (a, b)):
+                    el = Q(el.dim, el.tags | {'subblock'})
                 return Arr(a.axes[:-1] + b.axes[1:], el)
             return UNK
         if np_ == 'einsum' and len(args) >= 3 and isinstance(args[0], StrT) and args[0].val and '->' in args[0].val:
